@@ -3,12 +3,12 @@ CONSTANTS
   NIds = 4
   OddKinds = TRUE
   FullBase = TRUE
-  WideStale = TRUE
+  WideStale = FALSE
   TwoDev = FALSE
   ExportOn = TRUE
-  SampleMod = 3
+  SampleMod = 4
   HH = 10
 INIT Init
 NEXT Next
-INVARIANTS TypeOK Sound Complete CounterSound CounterLive Export
+INVARIANTS TypeOK Sound Complete Counter Export
 CHECK_DEADLOCK FALSE
